@@ -376,7 +376,31 @@ def run_check(run, tier):
     verify_trace_identifier(run, tier)
     verify_decomposed(run, tier)
     verify_segment(run, tier)
+    verify_v3_carrier(run, tier)
     finish(run)
+
+
+def verify_v3_carrier(run, tier):
+    """second observation point: KdBufParser.parse on a version-3 file carrying the records.  The clauses of C03 that carry a
+    raw record to from_raw_log_event are discharged again here: the LOG_EVENTS / LOG_STRINGS blocks only accumulate (payload of
+    that block), and every accumulated record is decoded with the string index of the whole trailer and yielded"""
+    from checks import c03
+    before = len(run.pending_failures)
+    saved = run.pending_failures
+    run.pending_failures = []
+    c03.verify_chunk_loops(run, tier, wf=True, prefix='C16/parse_v3', only=('/logs.', 'blocks.step.TRACEV3_LOG', '/supported', '/noraise'))
+    mine, run.pending_failures = run.pending_failures, saved
+    if not mine:
+        return
+    out = native({'kind': 'v3_blocks_search', 'seed': run.seed, 'budget': 300}, timeout=900)
+    f = out.get('found')
+    for ob, status, detail in mine:
+        if f:
+            run.violation(ob, {'request': f['request'], 'native': f, 'solver_output': '%s (%s)' % (status, detail)}, True, what=f.get('what', ''))
+        elif status == 'refuted':
+            run.violation(ob, {'request': None, 'solver_output': detail}, False, what='obligation %s no longer holds' % ob)
+        else:
+            run.undecide(ob, 'not proved (%s)' % detail)
 
 
 def finish(run):
